@@ -82,12 +82,72 @@ pub fn parse_case(text: &str) -> Option<(String, Limits, bool, Vec<u8>, Vec<Piec
 
 pub const PREFILL: &[u8] = b"PRE";
 
+thread_local! {
+    /// (limits, input) -> output of the single-call, copy-only, undrained run on the real encoder
+    static BASELINE: std::cell::RefCell<Option<(Limits, Vec<u8>, Option<Vec<u8>>)>> = const { std::cell::RefCell::new(None) };
+}
+
+/// The real encoder's output for `input` fed in one copied call (None if that run itself fails).
+pub fn baseline_output(input: &[u8], limits: Limits) -> Option<Vec<u8>> {
+    let cached = BASELINE.with(|b| match &*b.borrow() {
+        Some((l, i, out)) if *l == limits && i.as_slice() == input => Some(out.clone()),
+        _ => None,
+    });
+    if let Some(out) = cached {
+        return out;
+    }
+    let pieces = [Piece { lo: 0, hi: input.len(), m: M::Copy, d: D::None }];
+    let out = catch(|| run_encode(input, &pieces, limits, &[], &mut Obs::default())).ok().and_then(|r| r.ok());
+    owning_iovec::verif::drain_quarantine();
+    BASELINE.with(|b| *b.borrow_mut() = Some((limits, input.to_vec(), out.clone())));
+    out
+}
+
+/// The stream to feed a decoder that must give `input` back: the real encoder's output when the
+/// round-trip oracle is on (C01 is about the real codec on both sides), else the canonical encoding.
+pub fn stream_for(input: &[u8], limits: Limits) -> Vec<u8> {
+    let (first, later) = limits_of(limits);
+    if oracle(Oracle::RoundTrip) {
+        if let Some(out) = baseline_output(input, limits) {
+            return out;
+        }
+    }
+    refcodec::encode(input, first, later)
+}
+
 /// One encoder case: run, judge.  Err = violation description.
 pub fn enc_case(input: &[u8], pieces: &[Piece], limits: Limits, prefill: bool, obs: &mut Obs) -> Result<(), String> {
     set_breadcrumb(format!("case: {}\n", CaseId { side: "enc", limits, data: input, pieces, prefill }.render()).as_bytes());
     let r = catch(|| -> Result<(), String> {
         let out = run_encode(input, pieces, limits, if prefill { PREFILL } else { &[] }, obs)?;
-        judge_encoding(input, &out, limits)
+        let mut failures: Vec<String> = Vec::new();
+        if let Err(e) = judge_encoding(input, &out, limits) {
+            failures.push(e);
+        }
+        if oracle(Oracle::OutputShape) {
+            // a function of the concatenated input only: same as the single copied, undrained call
+            if let Some(base) = baseline_output(input, limits) {
+                if base != out {
+                    failures.push(format!("[shape] output depends on how the input was split / fed / drained: [{}] here, [{}] for a single copied call", hex(&out), hex(&base)));
+                }
+            }
+        }
+        if oracle(Oracle::RoundTrip) {
+            let whole = [Piece { lo: 0, hi: out.len(), m: M::Borrow, d: D::None }];
+            match run_decode(&out, &whole, limits, &[], &mut Obs::default()) {
+                Ok(Some(back)) if back == input => {}
+                Ok(Some(back)) => failures.push(format!("[roundtrip] decoding the encoder's output gives [{}] instead of the input", hex(&back))),
+                Ok(None) => failures.push("[roundtrip] the decoder rejects the encoder's output".to_string()),
+                Err(e) => failures.push(e),
+            }
+        }
+        match failures.iter().find(|f| relevant(f)) {
+            Some(f) => Err(f.clone()),
+            None => match failures.into_iter().next() {
+                Some(f) => Err(f),
+                None => Ok(()),
+            },
+        }
     });
     owning_iovec::verif::drain_quarantine();
     match r {
@@ -96,27 +156,54 @@ pub fn enc_case(input: &[u8], pieces: &[Piece], limits: Limits, prefill: bool, o
     }
 }
 
-/// One decoder case on an arbitrary byte string: verdict and output must equal the reference decoder.
-pub fn dec_case(encoded: &[u8], pieces: &[Piece], limits: Limits, prefill: bool, obs: &mut Obs) -> Result<bool, String> {
+/// One decoder case on an arbitrary byte string: verdict and output must equal the reference
+/// decoder ([canon]); when `must_give` is set the stream is an encoder output and decoding it
+/// must give exactly those bytes back ([roundtrip]).
+pub fn dec_case_expect(encoded: &[u8], pieces: &[Piece], limits: Limits, prefill: bool, obs: &mut Obs, must_give: Option<&[u8]>) -> Result<bool, String> {
     let (first, later) = limits_of(limits);
     let want = refcodec::decode(encoded, first, later);
     set_breadcrumb(format!("case: {}\n", CaseId { side: "dec", limits, data: encoded, pieces, prefill }.render()).as_bytes());
     let r = catch(|| run_decode(encoded, pieces, limits, if prefill { PREFILL } else { &[] }, obs));
     owning_iovec::verif::drain_quarantine();
-    match r {
-        Err(p) => Err(format!("panic: {}", p)),
-        Ok(Err(e)) => Err(e),
-        Ok(Ok(got)) => match (got, want) {
-            (None, None) => Ok(false),
-            (Some(g), Some(w)) if g == w => Ok(true),
-            (Some(g), Some(w)) => Err(format!("decoded [{}] expected [{}]", hex(&g), hex(&w))),
-            (Some(g), None) => Err(format!("accepted a byte string the format rejects (decoded to [{}])", hex(&g))),
-            (None, Some(w)) => Err(format!("rejected a well-formed encoding (of [{}])", hex(&w))),
+    let got = match r {
+        Err(p) => return Err(format!("panic: {}", p)),
+        Ok(Err(e)) => return Err(e),
+        Ok(Ok(got)) => got,
+    };
+    let mut failures: Vec<String> = Vec::new();
+    if let Some(input) = must_give {
+        match &got {
+            Some(g) if g.as_slice() == input => {}
+            Some(g) => failures.push(format!("[roundtrip] decoding gives [{}] instead of the original bytes", hex(g))),
+            None => failures.push("[roundtrip] the decoder rejects an encoder output".to_string()),
+        }
+    }
+    match (&got, &want) {
+        (None, None) => {}
+        (Some(g), Some(w)) if g == w => {}
+        (Some(g), Some(w)) => failures.push(format!("[canon] decoded [{}] expected [{}]", hex(g), hex(w))),
+        (Some(g), None) => failures.push(format!("[canon] accepted a byte string the format rejects (decoded to [{}])", hex(g))),
+        (None, Some(w)) => failures.push(format!("[canon] rejected a well-formed encoding (of [{}])", hex(w))),
+    }
+    match failures.iter().find(|f| relevant(f)) {
+        Some(f) => Err(f.clone()),
+        None => match failures.into_iter().next() {
+            Some(f) => Err(f),
+            None => Ok(got.is_some()),
         },
     }
 }
 
+pub fn dec_case(encoded: &[u8], pieces: &[Piece], limits: Limits, prefill: bool, obs: &mut Obs) -> Result<bool, String> {
+    dec_case_expect(encoded, pieces, limits, prefill, obs, None)
+}
+
 pub fn record(rep: &mut Report, prop: &str, id: &CaseId, err: &str, reproduces: bool) {
+    if !relevant(err) {
+        // only a sibling property's oracle fails on this case: not this check's alarm
+        rep.count("cases_failing_only_a_sibling_oracle", 1);
+        return;
+    }
     if !reproduces {
         machinery_failure(&format!("violation did not reproduce: {} / {}", id.render(), err));
     }
@@ -174,12 +261,7 @@ impl Tally<'_> {
     fn dec(&mut self, encoded: &[u8], pieces: &[Piece], limits: Limits, prefill: bool, obs: &mut Obs, must_accept: Option<&[u8]>) {
         self.rep.evaluations += 1;
         self.rep.transitions += pieces.len() as u64 + 1;
-        let verdict = |obs: &mut Obs| -> Result<bool, String> {
-            match dec_case(encoded, pieces, limits, prefill, obs) {
-                Ok(false) if must_accept.is_some() => Err("rejected the canonical encoding of an input".to_string()),
-                r => r,
-            }
-        };
+        let verdict = |obs: &mut Obs| -> Result<bool, String> { dec_case_expect(encoded, pieces, limits, prefill, obs, must_accept) };
         match verdict(obs) {
             Err(e) => {
                 let again = verdict(&mut Obs::default()).is_err();
@@ -241,8 +323,11 @@ fn one_input(rep: &mut Report, prop: &str, focus: Focus, input: &[u8], limits: L
             }
         }
     }
-    // --- decoder on the canonical encoding: must accept and give back the input
-    let e = canon.as_slice();
+    // --- decoder on the encoding (the real encoder's output when the round-trip oracle is on,
+    //     the canonical one otherwise): must accept and give back the input
+    let stream = stream_for(input, limits);
+    let _ = &canon;
+    let e = stream.as_slice();
     let en = e.len();
     for (i, j) in three_way(en) {
         if methods_full || focus == Focus::Format {
